@@ -39,6 +39,9 @@ type simFSM struct {
 	reads   int
 	gate    chan struct{} // when set, Update waits for it to be closed
 	held    int           // number of Update calls waiting at the gate
+	// Restore: wait for restoreGate (when set), fail with restoreErr (when set)
+	restoreGate chan struct{}
+	restoreErr  error
 }
 
 func (f *simFSM) setGate(g chan struct{}) { f.mu.Lock(); f.gate = g; f.mu.Unlock() }
@@ -99,6 +102,15 @@ func (f *simFSM) Snapshot() (FSMState, error) {
 }
 
 func (f *simFSM) Restore(r io.Reader) error {
+	f.mu.Lock()
+	g, rerr := f.restoreGate, f.restoreErr
+	f.mu.Unlock()
+	if g != nil {
+		<-g
+	}
+	if rerr != nil {
+		return rerr // the contract: on error the state machine keeps the state it had
+	}
 	var b [4]byte
 	if _, err := io.ReadFull(r, b[:]); err != nil {
 		return err
